@@ -678,8 +678,19 @@ func isNumberLiteral(n Node) bool {
 	}
 }
 
-func printDotOperand(out *PrintState, n Node, isDot bool) {
-	paren := isDot && isNumberLiteral(n)
+// After the dot only a single token is read without parentheses: a.b, a."b", a.true
+// (and a.b++ as the identifier takes its postfix operator with it).
+func isSingleToken(n Node) bool {
+	switch n.(type) { //nolint:exhaustive // only the nodes printed as one (non number) token.
+	case *Identifier, *StringLiteral, *Boolean, *PostfixExpression:
+		return true
+	default:
+		return false
+	}
+}
+
+func printDotOperand(out *PrintState, n Node, isDot, isIndex bool) {
+	paren := isDot && (isNumberLiteral(n) || (isIndex && !isSingleToken(n)))
 	if paren {
 		out.Print("(")
 	}
@@ -695,11 +706,12 @@ func (ie IndexExpression) PrettyPrint(out *PrintState) *PrintState {
 		out.Print("(")
 	}
 	isDot := ie.Token.Type() == token.DOT
-	// (1).a or a.(1): a number next to the dot would be read as (part of) another number.
-	printDotOperand(out, ie.Left, isDot)
+	// (1).a or a.(1): a number next to the dot would be read as (part of) another number;
+	// a.(b-x), a.(f(x)), a.(b.c): without the parentheses only the first token is the index.
+	printDotOperand(out, ie.Left, isDot, false)
 	out.Print(ie.Literal())
 	out.ExpressionPrecedence = LOWEST
-	printDotOperand(out, ie.Index, isDot)
+	printDotOperand(out, ie.Index, isDot, true)
 	if ie.Token.Type() == token.LBRACKET {
 		out.Print("]")
 	}
